@@ -8,9 +8,10 @@
 import DlmsVerif.Gen.Data
 import DlmsVerif.Model.Axdr
 import DlmsVerif.Lemmas.Basic
+import DlmsVerif.Lemmas.Axdr
 
 namespace Props.C14
-open Dlms Spec.Axdr Model.Axdr
+open Dlms Spec.Axdr Model.Axdr Lemmas.Axdr
 
 def T : Table := Gen.Data.dataMap
 
@@ -42,6 +43,261 @@ def toPyList : List Data → Option (List PyVal)
     | _, _ => none
 end
 
+
+/-! ### helpers: rows of the concrete table -/
+
+private theorem lk0 : lookup T (0 : UInt8).toNat = some ("NullData", 0, true) := by decide
+private theorem lk1 : lookup T (1 : UInt8).toNat = some ("DataArray", -1, false) := by decide
+private theorem lk2 : lookup T (2 : UInt8).toNat = some ("DataStructure", -1, false) := by decide
+private theorem lk3 : lookup T (3 : UInt8).toNat = some ("BooleanData", 1, true) := by decide
+private theorem lk5 : lookup T (5 : UInt8).toNat = some ("DoubleLongData", 4, true) := by decide
+private theorem lk6 : lookup T (6 : UInt8).toNat = some ("DoubleLongUnsignedData", 4, true) := by decide
+private theorem lk9 : lookup T (9 : UInt8).toNat = some ("OctetStringData", -1, true) := by decide
+private theorem lk15 : lookup T (15 : UInt8).toNat = some ("IntegerData", 1, true) := by decide
+private theorem lk16 : lookup T (16 : UInt8).toNat = some ("LongData", 2, true) := by decide
+private theorem lk17 : lookup T (17 : UInt8).toNat = some ("UnsignedIntegerData", 1, true) := by decide
+private theorem lk18 : lookup T (18 : UInt8).toNat = some ("UnsignedLongData", 2, true) := by decide
+private theorem lk20 : lookup T (20 : UInt8).toNat = some ("Long64Data", 8, true) := by decide
+private theorem lk21 : lookup T (21 : UInt8).toNat = some ("UnsignedLong64Data", 8, true) := by decide
+private theorem lk22 : lookup T (22 : UInt8).toNat = some ("EnumData", 1, true) := by decide
+private theorem lk25 : lookup T (25 : UInt8).toNat = some ("DateTimeData", 12, true) := by decide
+private theorem lk26 : lookup T (26 : UInt8).toNat = some ("DateData", 5, true) := by decide
+private theorem lk27 : lookup T (27 : UInt8).toNat = some ("TimeData", 4, true) := by decide
+
+private theorem twos_length (k : Nat) (v : Int) : (twos k v).length = k := by
+  unfold twos; exact beBytes_length _ _
+
+private theorem encode_length_pos (v : Data) : 1 ≤ (encode v).length := by
+  cases v <;> simp [encode]
+
+/-! ### decoding an encoding: exact consumption, or the refusal of an invalid date/time -/
+
+mutual
+private theorem dec_item (v : Data) (hw : wf v = true) (rest : Bytes) (k : Nat)
+    (hf : (encode v).length ≤ k + 1) :
+    decodeItem T (k + 1) (encode v ++ rest) =
+      match toPy v with
+      | some py => .ok (py, rest)
+      | none => .error .decode := by
+  match v with
+  | .null =>
+    simp only [encode, toPy, List.cons_append, List.nil_append]
+    rw [show rest = [] ++ rest from rfl,
+      decodeItem_fixed T 0 _ _ k lk0 (by decide) (by decide) [] rest (by decide)]
+    simp [fromBytes]
+  | .bool b =>
+    simp only [encode, toPy, List.cons_append, List.nil_append]
+    rw [show (if b then (1 : UInt8) else 0) :: rest = [if b then (1 : UInt8) else 0] ++ rest from rfl,
+      decodeItem_fixed T 3 _ _ k lk3 (by decide) (by decide) _ rest rfl]
+    cases b <;> simp [fromBytes, beNat]
+  | .i8 x =>
+    simp only [wf, Bool.and_eq_true, decide_eq_true_eq] at hw
+    simp only [encode, toPy, List.cons_append]
+    rw [decodeItem_fixed T 15 _ _ k lk15 (by decide) (by decide) _ rest (twos_length 1 x)]
+    simp [fromBytes, signed_twos_1 x hw.1 hw.2]
+  | .i16 x =>
+    simp only [wf, Bool.and_eq_true, decide_eq_true_eq] at hw
+    simp only [encode, toPy, List.cons_append]
+    rw [decodeItem_fixed T 16 _ _ k lk16 (by decide) (by decide) _ rest (twos_length 2 x)]
+    simp [fromBytes, signed_twos_2 x hw.1 hw.2]
+  | .i32 x =>
+    simp only [wf, Bool.and_eq_true, decide_eq_true_eq] at hw
+    simp only [encode, toPy, List.cons_append]
+    rw [decodeItem_fixed T 5 _ _ k lk5 (by decide) (by decide) _ rest (twos_length 4 x)]
+    simp [fromBytes, signed_twos_4 x hw.1 hw.2]
+  | .i64 x =>
+    simp only [wf, Bool.and_eq_true, decide_eq_true_eq] at hw
+    simp only [encode, toPy, List.cons_append]
+    rw [decodeItem_fixed T 20 _ _ k lk20 (by decide) (by decide) _ rest (twos_length 8 x)]
+    simp [fromBytes, signed_twos_8 x hw.1 hw.2]
+  | .u8 x =>
+    simp only [wf, decide_eq_true_eq] at hw
+    simp only [encode, toPy, List.cons_append]
+    rw [decodeItem_fixed T 17 _ _ k lk17 (by decide) (by decide) _ rest (beBytes_length 1 x)]
+    simp [fromBytes, beNat_beBytes_of_lt 1 x (by rw [p1]; exact hw)]
+  | .u16 x =>
+    simp only [wf, decide_eq_true_eq] at hw
+    simp only [encode, toPy, List.cons_append]
+    rw [decodeItem_fixed T 18 _ _ k lk18 (by decide) (by decide) _ rest (beBytes_length 2 x)]
+    simp [fromBytes, beNat_beBytes_of_lt 2 x (by rw [p2]; exact hw)]
+  | .u32 x =>
+    simp only [wf, decide_eq_true_eq] at hw
+    simp only [encode, toPy, List.cons_append]
+    rw [decodeItem_fixed T 6 _ _ k lk6 (by decide) (by decide) _ rest (beBytes_length 4 x)]
+    simp [fromBytes, beNat_beBytes_of_lt 4 x (by rw [p4]; exact hw)]
+  | .u64 x =>
+    simp only [wf, decide_eq_true_eq] at hw
+    simp only [encode, toPy, List.cons_append]
+    rw [decodeItem_fixed T 21 _ _ k lk21 (by decide) (by decide) _ rest (beBytes_length 8 x)]
+    simp [fromBytes, beNat_beBytes_of_lt 8 x (by rw [p8]; exact hw)]
+  | .enum x =>
+    simp only [wf, decide_eq_true_eq] at hw
+    simp only [encode, toPy, List.cons_append]
+    rw [decodeItem_fixed T 22 _ _ k lk22 (by decide) (by decide) _ rest (beBytes_length 1 x)]
+    simp [fromBytes, beNat_beBytes_of_lt 1 x (by rw [p1]; exact hw)]
+  | .octets bs =>
+    simp only [wf, decide_eq_true_eq] at hw
+    simp only [encode, toPy, List.cons_append, List.append_assoc]
+    rw [decodeItem_var T 9 _ k lk9 (by decide) bs rest hw]
+    simp [fromBytes]
+  | .dateTime bs =>
+    simp only [wf, beq_iff_eq] at hw
+    simp only [encode, toPy, List.cons_append]
+    rw [decodeItem_fixed T 25 _ _ k lk25 (by decide) (by decide) bs rest (by rw [hw]; decide)]
+    cases h : Model.Time.decode bs with
+    | error e => cases time_decode_err bs e h; simp [fromBytes, h]
+    | ok x => simp [fromBytes, h]
+  | .date bs =>
+    simp only [wf, beq_iff_eq] at hw
+    simp only [encode, toPy, List.cons_append]
+    rw [decodeItem_fixed T 26 _ _ k lk26 (by decide) (by decide) bs rest (by rw [hw]; decide)]
+    cases h : Model.Time.decodeDate bs with
+    | error e => cases time_decodeDate_err bs e h; simp [fromBytes, h]
+    | ok x => simp [fromBytes, h]
+  | .time bs =>
+    simp only [wf, beq_iff_eq] at hw
+    simp only [encode, toPy, List.cons_append]
+    rw [decodeItem_fixed T 27 _ _ k lk27 (by decide) (by decide) bs rest (by rw [hw]; decide)]
+    cases h : Model.Time.decodeTime bs with
+    | error e => cases time_decodeTime_err bs e h; simp [fromBytes, h]
+    | ok x => simp [fromBytes, h]
+  | .array xs =>
+    simp only [wf, Bool.and_eq_true, decide_eq_true_eq] at hw
+    simp only [encode, List.length_cons, List.length_append] at hf
+    simp only [encode, toPy, List.cons_append, List.append_assoc]
+    rw [decodeItem_container T 1 _ _ _ k lk1 (by decide) _ hw.1,
+      dec_list xs hw.2 rest k (by omega)]
+    cases toPyList xs <;> simp
+  | .structure xs =>
+    simp only [wf, Bool.and_eq_true, decide_eq_true_eq] at hw
+    simp only [encode, List.length_cons, List.length_append] at hf
+    simp only [encode, toPy, List.cons_append, List.append_assoc]
+    rw [decodeItem_container T 2 _ _ _ k lk2 (by decide) _ hw.1,
+      dec_list xs hw.2 rest k (by omega)]
+    cases toPyList xs <;> simp
+private theorem dec_list (xs : List Data) (hw : wfList xs = true) (rest : Bytes) (k : Nat)
+    (hf : (encodeList xs).length ≤ k) :
+    decodeN T k xs.length (encodeList xs ++ rest) =
+      match toPyList xs with
+      | some pys => .ok (pys, rest)
+      | none => .error .decode := by
+  match xs with
+  | [] => simp [decodeN, encodeList, toPyList]
+  | x :: xs =>
+    simp only [wfList, Bool.and_eq_true] at hw
+    simp only [encodeList, List.length_append] at hf
+    have hpos := encode_length_pos x
+    obtain ⟨k', rfl⟩ : ∃ k', k = k' + 1 := ⟨k - 1, by omega⟩
+    simp only [encodeList, List.length_cons, List.append_assoc, decodeN, toPyList]
+    rw [dec_item x hw.1 _ k' (by omega)]
+    cases hx : toPy x with
+    | none => simp
+    | some py =>
+      simp only []
+      rw [dec_list xs hw.2 rest (k' + 1) (by omega)]
+      cases toPyList xs <;> simp
+end
+
+/-! ### a truncated encoding is refused -/
+
+mutual
+private theorem pre_item (v : Data) (hw : wf v = true) (p : Bytes) (hp : p <+: encode v)
+    (hne : p ≠ encode v) (fuel : Nat) (hf : p.length ≤ fuel) :
+    decodeItem T fuel p = .error .decode := by
+  match v with
+  | .null =>
+    simp only [encode] at hp hne
+    exact decodeItem_fixed_prefix T 0 _ _ _ fuel lk0 (by decide) (by decide) _ rfl p hp hne
+  | .bool b =>
+    simp only [encode] at hp hne
+    exact decodeItem_fixed_prefix T 3 _ _ _ fuel lk3 (by decide) (by decide) _ rfl p hp hne
+  | .i8 x =>
+    simp only [encode] at hp hne
+    exact decodeItem_fixed_prefix T 15 _ _ _ fuel lk15 (by decide) (by decide) _ (twos_length 1 x) p hp hne
+  | .i16 x =>
+    simp only [encode] at hp hne
+    exact decodeItem_fixed_prefix T 16 _ _ _ fuel lk16 (by decide) (by decide) _ (twos_length 2 x) p hp hne
+  | .i32 x =>
+    simp only [encode] at hp hne
+    exact decodeItem_fixed_prefix T 5 _ _ _ fuel lk5 (by decide) (by decide) _ (twos_length 4 x) p hp hne
+  | .i64 x =>
+    simp only [encode] at hp hne
+    exact decodeItem_fixed_prefix T 20 _ _ _ fuel lk20 (by decide) (by decide) _ (twos_length 8 x) p hp hne
+  | .u8 x =>
+    simp only [encode] at hp hne
+    exact decodeItem_fixed_prefix T 17 _ _ _ fuel lk17 (by decide) (by decide) _ (beBytes_length 1 x) p hp hne
+  | .u16 x =>
+    simp only [encode] at hp hne
+    exact decodeItem_fixed_prefix T 18 _ _ _ fuel lk18 (by decide) (by decide) _ (beBytes_length 2 x) p hp hne
+  | .u32 x =>
+    simp only [encode] at hp hne
+    exact decodeItem_fixed_prefix T 6 _ _ _ fuel lk6 (by decide) (by decide) _ (beBytes_length 4 x) p hp hne
+  | .u64 x =>
+    simp only [encode] at hp hne
+    exact decodeItem_fixed_prefix T 21 _ _ _ fuel lk21 (by decide) (by decide) _ (beBytes_length 8 x) p hp hne
+  | .enum x =>
+    simp only [encode] at hp hne
+    exact decodeItem_fixed_prefix T 22 _ _ _ fuel lk22 (by decide) (by decide) _ (beBytes_length 1 x) p hp hne
+  | .octets bs =>
+    simp only [wf, decide_eq_true_eq] at hw
+    simp only [encode] at hp hne
+    exact decodeItem_var_prefix T 9 _ _ fuel lk9 (by decide) bs hw p hp hne
+  | .dateTime bs =>
+    simp only [wf, beq_iff_eq] at hw
+    simp only [encode] at hp hne
+    exact decodeItem_fixed_prefix T 25 _ _ _ fuel lk25 (by decide) (by decide) _ (by rw [hw]; decide) p hp hne
+  | .date bs =>
+    simp only [wf, beq_iff_eq] at hw
+    simp only [encode] at hp hne
+    exact decodeItem_fixed_prefix T 26 _ _ _ fuel lk26 (by decide) (by decide) _ (by rw [hw]; decide) p hp hne
+  | .time bs =>
+    simp only [wf, beq_iff_eq] at hw
+    simp only [encode] at hp hne
+    exact decodeItem_fixed_prefix T 27 _ _ _ fuel lk27 (by decide) (by decide) _ (by rw [hw]; decide) p hp hne
+  | .array xs =>
+    simp only [wf, Bool.and_eq_true, decide_eq_true_eq] at hw
+    simp only [encode] at hp hne
+    rcases proper_prefix_cons hp hne with rfl | ⟨q, rfl, hq, hqne⟩
+    · exact decodeItem_nil T fuel
+    · obtain ⟨k, rfl⟩ : ∃ k, fuel = k + 1 := ⟨fuel - 1, by simp at hf; omega⟩
+      rcases proper_prefix_append hq hqne with ⟨h1, h2⟩ | ⟨q', rfl, h1, h2⟩
+      · exact decodeItem_len_short T 1 _ _ _ k lk1 (.inl (by decide)) _ hw.1 q h1 h2
+      · rw [decodeItem_container T 1 _ _ _ k lk1 (by decide) _ hw.1,
+          pre_list xs hw.2 q' h1 h2 k (by simp at hf; omega)]
+  | .structure xs =>
+    simp only [wf, Bool.and_eq_true, decide_eq_true_eq] at hw
+    simp only [encode] at hp hne
+    rcases proper_prefix_cons hp hne with rfl | ⟨q, rfl, hq, hqne⟩
+    · exact decodeItem_nil T fuel
+    · obtain ⟨k, rfl⟩ : ∃ k, fuel = k + 1 := ⟨fuel - 1, by simp at hf; omega⟩
+      rcases proper_prefix_append hq hqne with ⟨h1, h2⟩ | ⟨q', rfl, h1, h2⟩
+      · exact decodeItem_len_short T 2 _ _ _ k lk2 (.inl (by decide)) _ hw.1 q h1 h2
+      · rw [decodeItem_container T 2 _ _ _ k lk2 (by decide) _ hw.1,
+          pre_list xs hw.2 q' h1 h2 k (by simp at hf; omega)]
+private theorem pre_list (xs : List Data) (hw : wfList xs = true) (p : Bytes)
+    (hp : p <+: encodeList xs) (hne : p ≠ encodeList xs) (fuel : Nat) (hf : p.length ≤ fuel) :
+    decodeN T fuel xs.length p = .error .decode := by
+  match xs with
+  | [] =>
+    simp only [encodeList] at hp hne
+    exact absurd (List.prefix_nil.mp hp) hne
+  | x :: xs =>
+    simp only [wfList, Bool.and_eq_true] at hw
+    simp only [encodeList] at hp hne
+    simp only [List.length_cons, decodeN]
+    rcases proper_prefix_append hp hne with ⟨h1, h2⟩ | ⟨q, rfl, h1, h2⟩
+    · rw [pre_item x hw.1 p h1 h2 fuel hf]
+    · have hpos := encode_length_pos x
+      simp only [List.length_append] at hf
+      obtain ⟨k, rfl⟩ : ∃ k, fuel = k + 1 := ⟨fuel - 1, by omega⟩
+      rw [dec_item x hw.1 q k (by omega)]
+      cases toPy x with
+      | none => rfl
+      | some py =>
+        simp only []
+        rw [pre_list xs hw.2 q h1 h2 (k + 1) (by omega)]
+end
+
 /-- the tag table of the code is the Blue-Book table for the supported types (tags, fixed
     sizes), and the classes without a decoder are exactly the unsupported ones. -/
 theorem C14_table :
@@ -51,12 +307,12 @@ theorem C14_table :
        (17, 1, true), (18, 2, true), (19, -1, false), (20, 8, true), (21, 8, true), (22, 1, true),
        (23, 4, false), (24, 8, false), (25, 12, true), (26, 5, true), (27, 4, true), (255, 0, false)] ∧
     (Gen.Data.dataMap.all fun r => r.1 == r.2.2.2.2.2) = true ∧ Gen.Data.variableLength = -1 := by
-  sorry
+  decide
 
 /-- every length / count is read back, whatever follows (one-byte and 0x81.. forms). -/
 theorem C14_lenPrefix_roundtrip (n : Nat) (h : byteLen n ≤ 127) (r : Bytes) :
-    axdrLen (lenPrefix n ++ r) = .ok (n, r) := by
-  sorry
+    axdrLen (lenPrefix n ++ r) = .ok (n, r) :=
+  axdrLen_lenPrefix n h r
 
 /-- **decode ∘ encode = id with exact consumption**: for every well-formed value tree (any
     depth, any width, octet strings of any length) followed by any bytes, the decoder
@@ -64,19 +320,40 @@ theorem C14_lenPrefix_roundtrip (n : Nat) (h : byteLen n ≤ 127) (r : Bytes) :
 theorem C14_decode_encode (v : Data) (hw : wf v = true) (py : PyVal) (hp : toPy v = some py)
     (rest : Bytes) (fuel : Nat) (hf : (encode v).length ≤ fuel) :
     decodeItem T fuel (encode v ++ rest) = .ok (py, rest) := by
-  sorry
+  have hpos := encode_length_pos v
+  obtain ⟨k, rfl⟩ : ∃ k, fuel = k + 1 := ⟨fuel - 1, by omega⟩
+  rw [dec_item v hw rest k hf, hp]
 
 /-- the top-level entry point on the encoding of one value. -/
 theorem C14_parse_single (v : Data) (hw : wf v = true) (py : PyVal) (hp : toPy v = some py) :
     parseAsDlmsData T (encode v) = .ok py := by
-  sorry
+  have hpos := encode_length_pos v
+  have hne : (encode v).isEmpty = false := by
+    cases h : encode v with
+    | nil => rw [h] at hpos; simp at hpos
+    | cons a l => rfl
+  have hd := C14_decode_encode v hw py hp [] ((encode v).length + 1) (by omega)
+  rw [List.append_nil] at hd
+  unfold parseAsDlmsData
+  rw [decodeAll]
+  simp only [hne, hd]
+  have he : ∀ k, decodeAll T k [] = .ok [] := by
+    intro k; cases k <;> simp [decodeAll]
+  simp [he]
 
 /-- **truncation is refused**: an input that ends before the lengths and counts it declares
     are satisfied — every non-empty proper prefix of an encoding — is refused, not completed. -/
 theorem C14_prefix_refused (v : Data) (hw : wf v = true) (p : Bytes)
     (hp : p <+: encode v) (hne : p ≠ encode v) (hnn : p ≠ []) :
     parseAsDlmsData T p = .error .decode := by
-  sorry
+  have hne' : p.isEmpty = false := by
+    cases p with
+    | nil => exact absurd rfl hnn
+    | cons a l => rfl
+  unfold parseAsDlmsData
+  rw [decodeAll]
+  simp only [hne', pre_item v hw p hp hne (p.length + 1) (by omega)]
+  simp
 
 /-- **encoders**: the value encoders the library has (double-long-unsigned, long-unsigned,
     integer, octet-string of any length, including 128 bytes and more) produce the standard
@@ -84,10 +361,28 @@ theorem C14_prefix_refused (v : Data) (hw : wf v = true) (p : Bytes)
 theorem C14_encoder_ok (v : Data) (hw : wf v = true)
     (hs : match v with | .u32 _ | .u16 _ | .i8 _ | .octets _ => True | _ => False) :
     toBytes T v = .ok (encode v) := by
-  sorry
+  have s6 : ((T.find? fun r => r.1 == 6).any fun r => r.2.2.2.2.1) = true := by decide
+  have s18 : ((T.find? fun r => r.1 == 18).any fun r => r.2.2.2.2.1) = true := by decide
+  have s15 : ((T.find? fun r => r.1 == 15).any fun r => r.2.2.2.2.1) = true := by decide
+  have s9 : ((T.find? fun r => r.1 == 9).any fun r => r.2.2.2.2.1) = true := by decide
+  cases v with
+  | u32 x =>
+    simp only [wf, decide_eq_true_eq] at hw
+    have : x < 2 ^ 32 := by omega
+    simp [toBytes, encode, s6, this]
+  | u16 x =>
+    simp only [wf, decide_eq_true_eq] at hw
+    have : x < 2 ^ 16 := by omega
+    simp [toBytes, encode, s18, this]
+  | i8 x =>
+    simp only [wf, Bool.and_eq_true, decide_eq_true_eq] at hw
+    simp [toBytes, encode, s15, hw.1, hw.2]
+  | octets bs => simp [toBytes, encode, s9, encodeVarInt]
+  | _ => exact absurd hs (by simp)
 
 /-- non-vacuity: a nested value with a 200-byte octet string. -/
 example : wf (.structure [.array [.u8 1, .null], .octets (List.replicate 200 0), .i8 (-1)]) = true := by
-  sorry
+  simp only [wf, wfList, List.length_replicate, List.length_cons, List.length_nil]
+  simp [byteLen_of_lt]
 
 end Props.C14
